@@ -126,6 +126,7 @@ Example C01_nonvacuous :
   wf_mesh m /\ (exists p, index2point m [3; 0]%Z = OK p /\ qlist_eqb p [7 # 2; (-3) # 4] = true) /\
   point2index m [4; (-1)] = OK [3; 0]%Z.
 Proof. exact nonvacuous_mesh. Qed.
+Print Assumptions C01_nonvacuous.
 
 (* n-dimensional tiling: every point of the half-open region lies in exactly one cell —
    the one point2index returns *)
